@@ -71,7 +71,7 @@ def gen_block(g, idx, atypes):
             "bare_atoms": g.random() < 0.15}      # [ atoms ] lines without charge and mass columns
 
 
-def gen_ff(g, nblocks=None, uniform_nrexcl=True, itp_p=0.2):
+def gen_ff(g, nblocks=None, uniform_nrexcl=True, itp_p=0.2, multires_p=0.15):
     atypes = [f"P{i}" for i in range(g.randint(1, 3))]
     nblocks = nblocks or g.randint(1, 3)
     blocks = [gen_block(g, i, atypes) for i in range(nblocks)]
@@ -161,6 +161,13 @@ def gen_ff(g, nblocks=None, uniform_nrexcl=True, itp_p=0.2):
             a = X["atoms"][0]["name"]
             links.append({"resnames": names, "sections": {
                 "angles": [{"atoms": [a, ">" + a, ">>" + a], "params": ["1", "140", "20"], "meta": {}}]}})
+    multires = None
+    if g.random() < multires_p:
+        # an existing multi-residue molecule used as building block (polyply .itp file; residue graph nodes of the
+        # fragment carry the label from_itp): copies of 2-3 of the blocks above, chained by bonds
+        comp = [g.randrange(len(blocks)) for _ in range(g.randint(2, 3))]
+        multires = {"name": "MR", "comp": comp, "link_len": [str(round(g.uniform(0.3, 0.45), 3)) for _ in comp[1:]],
+                    "split_first": False}
     # file layout
     items = [["block", i] for i in range(len(blocks))] + [["link", i] for i in range(len(links))]
     nfiles = g.randint(1, 3)
@@ -172,7 +179,43 @@ def gen_ff(g, nblocks=None, uniform_nrexcl=True, itp_p=0.2):
     itp_items = [it for f in files for it in f if it[0] == "block" and blocks[it[1]].get("itp")]
     files = [[it for it in f if it not in itp_items] for f in files]
     files = [f for f in files if f] + [[it] for it in itp_items]
-    return {"atypes": atypes, "blocks": blocks, "links": links, "files": files}
+    if multires:
+        files.append([["multires", 0]])
+    return {"atypes": atypes, "blocks": blocks, "links": links, "files": files, "multires": multires,
+            "same_names": g.random() < 0.2}     # all input files called defs.ff / defs.itp, each in its own directory
+
+
+def render_multires(ff):
+    mr = ff["multires"]
+    out = ["[ moleculetype ]", f"{mr['name']} {ff['blocks'][0]['nrexcl']}", "[ atoms ]"]
+    bonds = []
+    first_of = []
+    last_of = []
+    n = 0
+    resid = 0
+    for k, bi in enumerate(mr["comp"]):
+        b = ff["blocks"][bi]
+        resid += 1
+        base = n
+        for j, a in enumerate(b["atoms"]):
+            n += 1
+            rid, rname = resid, b["name"]
+            if mr.get("split_first") and k == 0 and j == 0 and len(b["atoms"]) >= 2:
+                rname = "RX"                      # variant: the first atom forms a residue of its own
+            elif mr.get("split_first") and len(ff["blocks"][mr["comp"][0]]["atoms"]) >= 2:
+                rid = resid + 1
+            out.append(f"{n} {a['atype']} {rid} {rname} {a['name']} {n} {a['charge']} {a['mass']}")
+        first_of.append(base + 1)
+        last_of.append(n)
+        for it in b["inter"]["bonds"] + [dict(c, params=c["params"] + ["5000"]) for c in b["inter"]["constraints"]]:
+            if it["meta"]:
+                continue
+            bonds.append(f"{base + it['atoms'][0] + 1} {base + it['atoms'][1] + 1} " + " ".join(it["params"][:3]))
+    for k in range(len(mr["comp"]) - 1):
+        bonds.append(f"{last_of[k]} {first_of[k + 1]} 1 {mr['link_len'][k]} 3500")
+    out.append("[ bonds ]")
+    out += bonds
+    return "\n".join(out) + "\n"
 
 
 def _meta_str(meta):
@@ -182,6 +225,8 @@ def _meta_str(meta):
 def render_item(ff, item):
     kind, i = item
     out = []
+    if kind == "multires":
+        return render_multires(ff)
     if kind == "block":
         b = ff["blocks"][i]
         out += ["[ moleculetype ]", f"{b['name']} {b['nrexcl']}", "[ atoms ]"]
@@ -228,8 +273,11 @@ def render_files(ff, file_order=None, item_orders=None):
         items = files[fi]
         if item_orders and item_orders.get(str(fi)):
             items = [items[k] for k in item_orders[str(fi)]]
-        is_itp = len(items) == 1 and items[0][0] == "block" and ff["blocks"][items[0][1]].get("itp")
-        out.append((f"ff{fi}." + ("itp" if is_itp else "ff"), "\n".join(render_item(ff, it) for it in items)))
+        is_itp = len(items) == 1 and ((items[0][0] == "block" and ff["blocks"][items[0][1]].get("itp"))
+                                      or items[0][0] == "multires")
+        ext = "itp" if is_itp else "ff"
+        fname = f"d{fi}/defs.{ext}" if ff.get("same_names") else f"ff{fi}.{ext}"
+        out.append((fname, "\n".join(render_item(ff, it) for it in items)))
     return out
 
 
@@ -256,8 +304,26 @@ def gen_resgraph(g, ff, maxn=10):
     else:
         seq = [g.choice(names) for _ in range(n)]
     rg = {"shape": shape, "resnames": seq, "edges": edges}
+    if g.random() < 0.2:
+        rg["resid_start"] = g.choice([0, 2, 5, 11])          # contiguous residue ids starting elsewhere (.json only)
+    mr = ff.get("multires")
+    if mr and shape == "linear" and g.random() < 0.7:
+        # a stretch of the chain is the multi-residue building block
+        names_mr = [ff["blocks"][bi]["name"] for bi in mr["comp"]]
+        k = len(names_mr)
+        pos = g.randint(0, max(0, n - k))
+        seq2 = seq[:pos] + names_mr + seq[pos + k:] if n >= k else list(names_mr)
+        rg["resnames"] = seq2
+        rg["edges"] = [[i, i + 1] for i in range(len(seq2) - 1)]
+        rg["from_itp"] = {str(pos + i): mr["name"] for i in range(k)}
+        rg.pop("resid_start", None)       # from_itp fragments with residue ids not starting at 1 crash in link
+        #                                   application (C01 territory, noted in DESIGN): not generated
+        if mr.get("split_first") and len(ff["blocks"][mr["comp"][0]]["atoms"]) >= 2:
+            rg["resnames"] = seq2[:pos] + ["RX"] + seq2[pos:]
+            rg["edges"] = [[i, i + 1] for i in range(len(rg["resnames"]) - 1)]
+            rg["from_itp"] = {str(pos + i): mr["name"] for i in range(k + 1)}
     if any(l.get("tag_link") for l in ff["links"]):
-        rg["tags"] = [g.choice(["R", "S"]) for _ in range(n)]       # only expressible in .json input
+        rg["tags"] = [g.choice(["R", "S"]) for _ in rg["resnames"]]       # only expressible in .json input
     return rg
 
 
@@ -269,7 +335,12 @@ def graph_json(rg, keys=None, node_order=None, edge_order=None, flip=None, resid
     node_order = node_order or list(range(n))
     edge_order = edge_order or list(range(len(rg["edges"])))
     flip = set(flip or [])
+    resid_start = rg.get("resid_start", resid_start)
     nodes = [{"id": keys[i], "resname": rg["resnames"][i], "resid": i + resid_start} for i in node_order]
+    if rg.get("from_itp"):
+        for nd, i in zip(nodes, node_order):
+            if str(i) in rg["from_itp"]:
+                nd["from_itp"] = rg["from_itp"][str(i)]
     if rg.get("tags"):
         for nd, i in zip(nodes, node_order):
             nd["tag"] = rg["tags"][i]
